@@ -41,6 +41,7 @@ func Run(c *hx.Ctx) {
 	}
 	traces(c)
 	forced(c)
+	handles(c)
 	concurrent(c, false)
 	raceChild(c)
 }
